@@ -316,6 +316,14 @@ for nb, shape, tho in ((12, None, False), (30, "SHAPE_ZEROS", False), (21, "SHAP
 C04_JOBS.append(dict(id="C04.parseFloatingFast", src="c04_number.c", harness="h_parseFloatingFast", units=C04_UNITS, defs=["UNIT_parseFloatingFast"], arch="-", route="L",
     function="Parser::parseFloatingFast", flags=["--slice-formula"], timeout=600,
     claims="all man < 2^52, -22 <= exp10 <= 37: every kPow10Tab index (exp10-22, 22, exp10, -exp10) is inside the 23-entry table"))
+C04_JOBS.append(dict(id="C04.AtofEiselLemire64.normal", src="c04_number.c", harness="h_AtofEiselLemire64",
+    units=C04_UNITS + ["avx2.LeadingZeroes", "kPow10M128Tab", "MulU64", "AtofEiselLemire64", "ParseFloatingNormalFast"], defs=["UNIT_EiselLemire"], arch="-", route="L",
+    function="AtofEiselLemire64", enforce="AtofEiselLemire64", flags=["--slice-formula"], timeout=900, replay="eisel",
+    claims="all mantissas != 0, all exponents, both signs: table index in range, every shift amount defined, and a successful conversion is a normal finite double (exponent field 1..2046) with the requested sign. Its ROUNDING is not decided"))
+C04_JOBS.append(dict(id="C04.ParseFloatingNormalFast.normal", src="c04_number.c", harness="h_ParseFloatingNormalFast",
+    units=C04_UNITS + ["avx2.LeadingZeroes", "kPow10M128Tab", "MulU64", "AtofEiselLemire64", "ParseFloatingNormalFast"], defs=["UNIT_EiselLemire", "CONTRACT_DUMMY"], arch="-", route="L",
+    function="ParseFloatingNormalFast", enforce="ParseFloatingNormalFast_real", flags=["--slice-formula"], timeout=900, replay="normalfast",
+    claims="all mantissas != 0, -307 < exp10 < 288, both signs: table index in range, every shift amount defined, and a successful conversion is a normal finite double with the requested sign. Its ROUNDING is not decided"))
 PROPS["C04"] = dict(level="other", jobs=C04_JOBS, trusted_base=COMMON_TRUST, assumptions=[], undecided=[], explanation="")
 
 
